@@ -766,3 +766,97 @@ def exc_cast_spellings(repo, tier="quick"):
             obs.append(ob_ok(oid, fi, st, construct="%d spellings reach %s(%s) unchanged" % (len(_SPELLINGS), ast.unparse(call.func), vname), instance="spellings",
                              reason="nothing in front of the cast rejects or rewrites a number"))
     return obs
+
+
+# ---------------------------------------------------------------------------------------------------------------------
+# Round 8 (two cooperating sites / sequences): state that crosses calls
+# ---------------------------------------------------------------------------------------------------------------------
+
+def det_sampler_state(repo, tier="quick"):
+    """A MoleculeSampler is built once and sampled from many times.  The only thing one sample() may leave for the next is the
+    position of the sampler's own random generator.  An attribute that sample() or a method it calls assigns, counts up or fills
+    in place is state of the previous molecule: the second molecule drawn from one sampler then differs from the first one of a
+    fresh sampler with the same history (wrong fragment ids, leftover descriptors, shrinking tables)."""
+    oid = "DET.sampler-state"
+    mod = repo.module("sample")
+    cls = "MoleculeSampler"
+    smp = repo.function("sample:%s.sample" % cls)
+    reach = repo.reachable([smp.fq])
+    methods = [fi for q, fi in mod.functions.items() if q.startswith(cls + ".") and fi.fq in reach]
+    need(methods, "anchor vanished: MoleculeSampler.sample not found")
+    obs = []
+    n = 0
+    for fi in methods:
+        for sub in ast.walk(fi.node):
+            site, attr, how = None, None, None
+            if isinstance(sub, (ast.Assign, ast.AnnAssign, ast.AugAssign)):
+                tgs = sub.targets if isinstance(sub, ast.Assign) else [sub.target]
+                for t in tgs:
+                    for e in (t.elts if isinstance(t, (ast.Tuple, ast.List)) else [t]):
+                        a = _self_attr(e)
+                        if a:
+                            site, attr, how = sub, a, "assigned" if isinstance(e, ast.Attribute) and isinstance(e.value, ast.Name) else "written into"
+            elif isinstance(sub, ast.Delete):
+                for t in sub.targets:
+                    a = _self_attr(t)
+                    if a:
+                        site, attr, how = sub, a, "deleted from"
+            elif isinstance(sub, ast.Call) and isinstance(sub.func, ast.Attribute) and sub.func.attr in _MUTATORS - {"add_node", "add_nodes_from", "add_edge", "add_edges_from",
+                                                                                                                  "remove_node", "remove_nodes_from", "remove_edge", "remove_edges_from"}:
+                a = _self_attr(sub.func.value)
+                if a and a not in ("random", "rng"):
+                    site, attr, how = sub, a, "modified in place (.%s)" % sub.func.attr
+            if site is not None:
+                n += 1
+                obs.append(ob_fail(oid, fi, site, construct="self.%s is %s in %s" % (attr, how, fi.name), instance=fi.name + ":" + attr,
+                                   reason="the sampler keeps something of the molecule it has just built: the next sample() of the same sampler starts from it"))
+    if not obs:
+        obs.append(ob_ok(oid, smp, construct="sample() and the %d methods it reaches assign no attribute of the sampler" % (len(methods) - 1), instance="sample",
+                         reason="only the random generator advances between two molecules"))
+    return obs
+
+
+def own_meta_edges(repo, tier="quick"):
+    """The coarse graph of a resolution step is the fine graph the previous step handed to the caller.  A step may attach the
+    per-node graphs to its nodes (that is the documented mapping); it must not write into its edges: their attributes (`bonding`
+    descriptor pair, `order`) describe the bonds of the previous level and are read again by the caller and by the writer."""
+    oid = "OWN.meta-edges"
+    mod = repo.module("resolve")
+    res = repo.function("resolve:MoleculeResolver.resolve")
+    reach = repo.reachable([res.fq])
+    methods = [fi for q, fi in mod.functions.items() if q.startswith("MoleculeResolver.") and fi.fq in reach]
+    obs = []
+
+    def is_meta_edges(node):
+        # self.meta_graph.edges[...]  (possibly one more subscript for the attribute)
+        while isinstance(node, ast.Subscript):
+            v = node.value
+            if isinstance(v, ast.Attribute) and v.attr == "edges" and isinstance(v.value, ast.Attribute) and v.value.attr == "meta_graph" and \
+                    isinstance(v.value.value, ast.Name) and v.value.value.id == "self":
+                return True
+            node = v
+        return False
+    for fi in methods:
+        for sub in ast.walk(fi.node):
+            bad = None
+            if isinstance(sub, (ast.Assign, ast.AugAssign)):
+                for t in (sub.targets if isinstance(sub, ast.Assign) else [sub.target]):
+                    if isinstance(t, ast.Subscript) and is_meta_edges(t):
+                        bad = "store into self.meta_graph.edges[...]"
+            elif isinstance(sub, ast.Call) and isinstance(sub.func, ast.Attribute):
+                f = sub.func
+                if f.attr in ("update", "setdefault", "pop", "clear") and isinstance(f.value, ast.Subscript) and is_meta_edges(f.value):
+                    bad = "self.meta_graph.edges[...].%s(...)" % f.attr
+                if f.attr in ("add_edge", "add_edges_from", "remove_edge", "remove_edges_from") and isinstance(f.value, ast.Attribute) and f.value.attr == "meta_graph" and \
+                        isinstance(f.value.value, ast.Name) and f.value.value.id == "self":
+                    bad = "self.meta_graph.%s(...)" % f.attr
+                nm = _ext(repo, fi, sub) or ""
+                if nm.endswith("set_edge_attributes") and sub.args and isinstance(sub.args[0], ast.Attribute) and sub.args[0].attr == "meta_graph":
+                    bad = "set_edge_attributes(self.meta_graph, ...)"
+            if bad:
+                obs.append(ob_fail(oid, fi, sub, construct=bad, instance=fi.name, reason="the edges of the coarse graph are the bonds of the previous level (a graph the caller already holds): "
+                                   "their descriptor pairs / orders are overwritten by those of the level being resolved"))
+    if not obs:
+        obs.append(ob_ok(oid, res, construct="no method reachable from resolve() writes an edge of self.meta_graph", instance="resolve",
+                         reason="the bonds of the previous level stay as they were handed out"))
+    return obs
